@@ -88,6 +88,10 @@ def e1_case(ctx, m, args):
     impl = lpdump.dump_impl(m.solver, e1err.colkey(m, ids))
     req = e1err.request("klae", m, ids, args)
     d = e1.compare(ctx, "E1_kLeastAbsErrors_LP", "klae", m, impl, req, args)
+    try:
+        e1err.theorem_premises(ctx, "E1_kLeastAbsErrors_LP", "klaepremises", m, ids, args)
+    except Exception as e:
+        ctx.report(f"E1_kLeastAbsErrors_LP: optimality-premises check crashed: {e!r}", {"engine": "E1_kLeastAbsErrors_LP"}, concrete=False)
     if d and ctx.engines.get("E1_kLeastAbsErrors_LP", {}).get("disagreements", 0) <= 3:   # keep room for concrete failing inputs
         ctx.report("E1 correspondence broken: LP of kLeastAbsErrors differs from ErrEnc.encode_klae: " + "; ".join(d[:3]),
                    {"class": "kLeastAbsErrors", "args": errlib.describe(args), "diff": d[:12]}, concrete=False)
